@@ -1119,4 +1119,28 @@ mod verif_nx_pipeline {
         println!("NX pipeline_crlf_untouched_strings: {} cases", n);
         assert!(n == 1206 && wrapped > 100, "enumeration ran: {} cases, {} wrapped", n, wrapped);
     }
+
+    // C03 / C01 with a comment directly after a conditional directive that stands on its own line between statements
+    // (`{$ENDIF} // WIDE`): the output is a fixpoint and keeps the comment on the directive's line.
+    #[test]
+    fn verif_nx_pipeline_directive_comments() {
+        let dirs = ["{$IFDEF A}", "{$ELSE}", "{$ENDIF}", "{$IFNDEF B}", "{$ELSEIF C}", "{$IFEND}"];
+        let notes = ["// note", "{ note }", "(* note *)", "//note   ", "{$define X}"];
+        let befores = ["X := 1;\n", "begin\n", "", "if Q then\n  Foo;\n"];
+        let afters = ["Y := 2;\n", "end;\n", ""];
+        let mut n = 0u64;
+        for limit in [30u32, 120] {
+            let cfg = leak(config(false, 2, 2, false, limit, false));
+            for d in dirs { for note in notes { for b in befores { for a in afters { for gap in [" ", "", "   "] {
+                let p = format!("procedure P;\nbegin\n{b}{d}{gap}{note}\n{a}end;\n");
+                let (o, _) = fmt(cfg, &p, Vec::new());
+                let (again, _) = fmt(cfg, &o, Vec::new());
+                assert!(again == o, "OB pipeline/idempotent: formatting the formatter's own output changes nothing\n input={:?} limit={}\n first={:?}\n second={:?}", p, limit, o, again);
+                assert!(nb(&o) == nb(&p), "OB pipeline/non_blank_preserved: the output has the same non-blank characters in the same order (ASCII case aside)\n input={:?}\n output={:?}", p, o);
+                n += 1;
+            }}}}}
+        }
+        println!("NX pipeline_directive_comments: {} cases", n);
+        assert!(n == 2160, "enumeration ran");
+    }
 }
